@@ -22,8 +22,8 @@ MANIFEST = {
     "technique": "bounded-exhaustive enumeration of degenerate inputs x configurations; totality and pairs-vs-triples differential oracle",
 }
 MANIFEST["text"] += " " + (
-    'Added after the seeding waves: triples with datetime time stamps, the named graphs with small noise (internal guards must not fire), non-emitting noise smaller than the emitting one, and the SQLite backend with small numeric time stamps and a finite initial radius; the pairs-vs-triples comparison also after an extension (match prefix, match(all, expand=True)), a re-run and a widening on the configurations with a width or a cut-off.')
-BUDGET = {"quick": 420, "thorough": 3000}
+    'Added after the seeding waves: triples with datetime time stamps, the named graphs with small noise (internal guards must not fire), non-emitting noise smaller than the emitting one, and the SQLite backend with small numeric time stamps and a finite initial radius; the pairs-vs-triples comparison also after an extension (match prefix, match(all, expand=True)), a widening and a re-run on the width-limited configurations.')
+BUDGET = {"quick": 600, "thorough": 3000}
 RULE = ("states = (input, configuration, metric) pairs of runs, transitions = matcher executions, traces validated = pairs-vs-triples "
         "comparisons; non-trivial = the trace contains an observation exactly on a node/edge, a repeat, or the map has a zero-length "
         "road; outcomes = canonical results.")
@@ -161,10 +161,10 @@ def run_case(case):
             where = f"{case['metric']} {al.describe_graph(g0)} trace {trace} cfg {c}"
             # incremental matching is matching too: the same pairs-vs-triples comparison after an extension and after a widening
             # (on the configurations with a width or a cut-off; the trace is kept by the matcher between the calls)
-            if len(tr) >= 2 and (c.get("width") or c.get("max_dist")) and c["obs_noise"] in (1.0, 3.0):
-                hists = [[["M", 1], ["X", len(tr)]], [["M", len(tr)], ["X", len(tr)]]]
-                if c.get("width"):
-                    hists.append([["M", len(tr)], ["W", 3]])
+            if len(tr) >= 2 and c.get("width") and c["obs_noise"] in (1.0, 3.0):
+                hists = [[["M", 1], ["X", len(tr)]], [["M", len(tr)], ["W", 3]]]
+                if c.get("max_dist"):
+                    hists.append([["M", len(tr)], ["X", len(tr)]])
                 for hist in hists:
                     hgot = []
                     for t in forms[:2]:
